@@ -295,6 +295,30 @@ def scenario_stats(scn):
             "callbacks": sum(1 for d in devices(scn) if d["beh"].get("cb", {}).get("kind", "none") != "none")}
 
 
+def rescale_times(scn, factor, rng):
+    """the same scenario at another TIME SCALE: every callback period / delay, the initial time and every stimulus instant
+    multiplied by `factor` (milliseconds -> seconds or minutes of simulated time), plus a few nanoseconds of per-device
+    jitter on periodic callbacks so that wakeups of different devices come very close to each other without being equal
+    (relative differences far below 1e-9).  The properties quantify over all times; tick counts do not change."""
+    import copy
+    scn = copy.deepcopy(scn)
+    for d in devices(scn):
+        cb = d["beh"].get("cb", {})
+        if cb.get("kind") == "period":
+            cb["p"] = cb["p"] * factor + rng.choice((0, 0, 1, 3, 7, 25, 40))
+        elif cb.get("kind") == "list":
+            cb["delays"] = [None if x is None else x * factor for x in cb["delays"]]
+    if "t0" in scn:
+        scn["t0"] = scn["t0"] * factor
+    for st in scn.get("stims", []):
+        if "real" in st:
+            st["real"] = st["real"] * factor
+    if scn.get("max_real") is not None:
+        scn["max_real"] = scn["max_real"] * factor
+    scn["time_scale"] = factor
+    return scn
+
+
 # names that differ only in case, punctuation or surrounding characters: whatever is derived from a component
 # name (topics, registry keys, ...) must keep them apart
 CONFUSABLE_GROUPS = [["tbl:x", "tbl_x", "tbl x", "tbl/x", "tbl.x", "tbl-x", "tbl__x", "TBL_X", "tbl;x"],
